@@ -43,10 +43,14 @@ def param_fields(e):
 def mentions(e, pred):
     """does any sub-expression satisfy pred?"""
     found = []
+    seen = set()
 
     def rec(x):
         if found or not isinstance(x, tuple) or not x:
             return
+        if id(x) in seen:
+            return
+        seen.add(id(x))
         if isinstance(x[0], str):
             if pred(x):
                 found.append(x)
